@@ -395,6 +395,15 @@ def impl_text(case, rec):
     return ' '.join('-' if c is None else show_entries(c) for c in rec['calls'])
 
 
+def is_deep(ctx):
+    """explore at thorough depth: thorough tier, or the fingerprints of the modelled functions
+    drifted / an obligation broke.  (lib/vcheck.py re-runs a drifted quick check at depth only
+    when the first pass recorded no violation at all - the known finding F8 is always recorded,
+    so the harness looks at the reasons itself; scopes still stop growing once something
+    unlisted failed.)"""
+    return bool(ctx.deep or getattr(ctx, 'deep_reasons', None))
+
+
 def unlisted_failure(ctx, res):
     """something failed that is not a recorded known finding (scopes stop growing then)"""
     try:
@@ -646,7 +655,13 @@ def run(ctx):
     _init(ctx.repo, ctx.facts)
     jr = _jr
     cc = [parse_corpus_line(l) for l in corpus_lines(ctx.verif, 'C02')]
-    evaluate(ctx, cc, res, 'corpus')
+    evaluate(ctx, [c for c in cc if 'layer' not in c], res, 'corpus')
+    from harness import c02_session, c02_backpressure
+    for c in cc:
+        if c.get('layer') == 'bp':
+            c02_backpressure.replay(ctx, c, res)
+        elif c.get('layer') == 'session':
+            c02_session.replay(ctx, c, res)
     evaluate(ctx, single_cases(jr), res, 'singles')
     done = 0
     for n, protos, rich in ((3, ('v2', 'loose', 'auto'), True), (4, ('v2', 'loose'), False)):
@@ -658,7 +673,7 @@ def run(ctx):
     def depth():
         if unlisted_failure(ctx, res):
             return 0
-        return 2 if ctx.tier == 'thorough' else 1 if ctx.deep else 0
+        return 2 if ctx.tier == 'thorough' else 1 if is_deep(ctx) else 0
     if depth() >= 1:
         thin = 1 if depth() == 2 else 5
         ex = [c for c in exhaustive_cases(jr, 5, ('v2',), False, thin=thin) if len(c['members']) == 5]
@@ -674,7 +689,6 @@ def run(ctx):
     for c in gen[:2]:
         res.sample({'case': c})
     res['scopes']['exhaustive_max_len'] = done
-    from harness import c02_session, c02_backpressure
     c02_session.run(ctx, res)
     c02_backpressure.run(ctx, res)
     return res.finish(RULE, exhaustive=not unlisted_failure(ctx, res))
